@@ -42,7 +42,9 @@ def sem_check(prop, tier, replay, opts, kinds_sem=(), pairs=(), use_bad=False, u
     return v.finish(level, cov, list(assumptions))
 
 
-SEM_RULE = ("TLC enumerates every pattern of the listed families (spec/Families.tla) and every haystack up to the family's "
+SEM_RULE = ("Family R, where listed, is a set of seeded random pattern trees (vlib/randast.py, depth <= 4, all constructs; VERIF_SEED) with "
+            "random haystacks, judged by TLC like the enumerated ones. "
+            "TLC enumerates every pattern of the listed families (spec/Families.tla) and every haystack up to the family's "
             "length bound over its alphabet; the runner executes each (pattern, haystack, start index 0..len+1) on the real "
             "engine; TLC (spec/JudgeSem.tla) recomputes the ECMAScript result with spec/ESSem.tla and compares. "
             "evaluations = (pattern, haystack, start) triples judged; a (pattern, haystack) pair is non-trivial when the "
@@ -112,14 +114,17 @@ def c04(tier, replay):
 @check("C05")
 def c05(tier, replay):
     return sem_check("C05", tier, replay, ["--no-ascii", "--fuel", "400000"], kinds_sem=("cost", "vm", "traceinv"),
-                     want=("cost", "vm", "trace"), families=["F2", "F9"] if tier == "quick" else ["F2", "F3", "F4", "F1", "F1b", "F9"],
+                     want=("cost", "vm", "trace", "space"), families=["F2", "F9"] if tier == "quick" else ["F2", "F3", "F4", "F1", "F1b", "F9"],
                      trace_every=37 if tier == "quick" else 11, max_traces=2500 if tier == "quick" else 30000,
                      use_fails=lambda f: True, extra=trace_notes, vm_every=10 if tier == "quick" else 1,
                      rule="TLC enumerates the nested-quantifier family F2 (thorough: F1-F4) and all haystacks up to the bound; the runner "
                      "measures, through the step hook, instruction dispatches and the largest backtrack/thread stack of the whole "
                      "iteration on both executors and both pipelines under a fuel limit; TLC (JudgeCost.tla) computes the cost of the "
                      "reference ordered search (ESSem.SearchCost) and requires steps, depth <= 24*cost+64; JudgeVM.tla runs both machine "
-                     "specifications to completion on the dumped programs under fuel; MCVM.tla validates sampled runs step by step with "
+                     "specifications to completion on the dumped programs under fuel; MCVMSpace.tla model-checks both machines with their real Next "
+                     "relation on a sample of the dumped programs (every haystack, every start boundary): invariants on every state, a "
+                     "step bound, and termination as a liveness property with the step counter hidden, so that a repeating configuration "
+                     "is a lasso; MCVM.tla validates sampled runs step by step with "
                      "the stack bound as an invariant. Fuel exhaustion, panics and process deaths are violations attributed to the case. "
                      "Non-trivial: every (pattern, haystack) run counts; distinct by construction.",
                      assumptions=["K=24, K0=64 were calibrated once (largest ratio seen on the repaired tree: 5.5) and frozen"])
